@@ -123,26 +123,9 @@ def T0' : Tab ℚ := { c := [0, 1], a := [[1, 1]], b := [2], basis := [0], value
 /-- `min −x₀` with the row `−x₀ + x₁ = 2`: unbounded. -/
 def T1 : Tab ℚ := { c := [-1, 0], a := [[-1, 1]], b := [2], basis := [1], value := 0, offset := 0, flip := false }
 
-theorem canon_of_one_row (T : Tab ℚ) (r : List ℚ) (b0 : ℚ) (j : Nat) (ha : T.a = [r]) (hb : T.b = [b0])
-    (hj : T.basis = [j]) (hr : r.length = T.c.length) (hjn : j < T.c.length) (h1 : nth r j = 1)
-    (hc : nth T.c j = 0) : Canon T 1 T.c.length := by
-  refine ⟨⟨by simp [ha], by simp [hb], by simp [hj], rfl, ?_⟩, ?_, ?_, ?_⟩
-  · intro i hi; have : i = 0 := by omega
-    subst this; simp [ha, row, hr]
-  · intro i k hi hk
-    have hi' : i = 0 := by simp [ha] at hi; omega
-    have hk' : k = 0 := by simp [ha] at hk; omega
-    subst hi' hk'; simpa [ha, hj, row] using h1
-  · intro k hk
-    have hk' : k = 0 := by simp [ha] at hk; omega
-    subst hk'; simpa [hj] using hjn
-  · intro k hk
-    have hk' : k = 0 := by simp [ha] at hk; omega
-    subst hk'; simpa [hj] using hc
-
-example : Canon T0 1 2 := canon_of_one_row T0 [1, 1] 2 1 rfl rfl rfl rfl (by decide) (by simp [nth]) (by simp [T0, nth])
-example : Canon T0' 1 2 := canon_of_one_row T0' [1, 1] 2 0 rfl rfl rfl rfl (by decide) (by simp [nth]) (by simp [T0', nth])
-example : Canon T1 1 2 := canon_of_one_row T1 [-1, 1] 2 1 rfl rfl rfl rfl (by decide) (by simp [nth]) (by simp [T1, nth])
+example : Canon T0 1 2 := Unbounded.canon_of_one_row T0 [1, 1] 2 1 rfl rfl rfl rfl (by decide) (by simp [nth]) (by simp [T0, nth])
+example : Canon T0' 1 2 := Unbounded.canon_of_one_row T0' [1, 1] 2 0 rfl rfl rfl rfl (by decide) (by simp [nth]) (by simp [T0', nth])
+example : Canon T1 1 2 := Unbounded.canon_of_one_row T1 [-1, 1] 2 1 rfl rfl rfl rfl (by decide) (by simp [nth]) (by simp [T1, nth])
 example : Feasible T0 := by intro i hi; have : i = 0 := by simp [T0] at hi; omega
                             subst this; simp [T0, nth]
 example : ObjInv T0 [-1, 0] := by intro x _ _; simp [T0]
